@@ -1,7 +1,7 @@
 (* C20 — 5/3 reversible wavelet part. Property-level theorems in Props format; the integrator
    merges these into Props/C20.v (add DWT.DwtModel DWT.DwtProofs DWT.DwtProofs2D DWT.DwtFinite
-   to its Require line). *)
-From V Require Import Common.Base DWT.DwtModel DWT.DwtProofs DWT.DwtProofs2D DWT.DwtFinite.
+   DWT.DwtGrowth to its Require line). *)
+From V Require Import Common.Base DWT.DwtModel DWT.DwtProofs DWT.DwtProofs2D DWT.DwtFinite DWT.DwtGrowth.
 
 (* 1-D: the streaming inverse (Inverse53_1DWithParity, OpenJPEG cas0/cas1 form) undoes the
    predict/update forward transform (Forward53_1DWithParity) for EVERY signal length (0, 1, 2,
@@ -10,6 +10,17 @@ From V Require Import Common.Base DWT.DwtModel DWT.DwtProofs DWT.DwtProofs2D DWT
 Theorem C20_dwt53_inverse_1d : forall (even : bool) (l : list Z), inv53 even (fwd53 even l) = l.
 Proof. exact dwt53_inverse_1d. Qed.
 Print Assumptions C20_dwt53_inverse_1d.
+
+(* concrete instances of the boundary cases: the single-sample odd-parity case doubles and then
+   halves by TRUNCATING division (so it is exact on forward images, and rounds -5 to -2 on an
+   arbitrary input); widths 2 and 3 of the streaming inverse; the empty signal. *)
+Example C20_dwt53_1d_boundary_instances :
+  fwd53 false [-3] = [-6] /\ inv53 false [-6] = [-3] /\ inv53 false [-5] = [-2] /\
+  fwd53 true [-3] = [-3] /\
+  fwd53 false [7; -4] = [2; 11] /\ inv53 false [2; 11] = [7; -4] /\
+  fwd53 true [7; -4; 1] = [3; -3; -8] /\ inv53 true [3; -3; -8] = [7; -4; 1] /\
+  fwd53 true [] = [] /\ inv53 true [] = [].
+Proof. vm_compute. repeat split; reflexivity. Qed.
 
 (* 2-D on a w x h window of a row-major buffer with row distance stride >= w (columns then
    rows forward, rows then columns inverse), any parity pair. *)
@@ -63,3 +74,22 @@ Example C20_dwt53_finite_nonvacuous :
   (length [2; -2; 1; 0; -1; 2; 2; -2]%Z <= 8)%nat /\ Forall (fun v => -2 <= v <= 2) [2; -2; 1; 0; -1; 2; 2; -2] /\
   fwd53 false [2; -2; 1; 0; -1; 2; 2; -2] = [0; 0; 2; -1; 4; 2; -2; 2].
 Proof. split; [simpl; lia|]. split; [repeat constructor; lia|vm_compute; reflexivity]. Qed.
+
+(* Growth (over Z; coarse): samples within [-A, A] give coefficients within [-2A, 2A] after a
+   1-D pass, [-4A, 4A] after a 2-D level, [-4^levels A, 4^levels A] after `levels` levels.  With
+   the list of int32 intermediates of the Go code (DwtGrowth.v header) this gives the int32-safe
+   input range 4 * 4^levels * A + 2 < 2^31; it is the reason for the amplitudes the harness uses
+   (the tight per-level low-pass gain 2.25 is not proved). *)
+Theorem C20_dwt53_growth_1d : forall (A : Z) (x : list Z), 0 <= A -> bnd A x ->
+  forall even, bnd (2 * A) (fwd53 even x).
+Proof. exact fwd53_bound. Qed.
+Print Assumptions C20_dwt53_growth_1d.
+
+Theorem C20_dwt53_growth_multilevel : forall (levels : nat) (A : Z) (d : list Z) (w h : nat) (x0 y0 : Z),
+  0 <= A -> bnd A d -> bnd (4 ^ Z.of_nat levels * A) (fwd53_ml d w h levels x0 y0).
+Proof. exact fwd53_ml_bound. Qed.
+Print Assumptions C20_dwt53_growth_multilevel.
+
+Example C20_dwt53_growth_nonvacuous :
+  0 <= 5 /\ bnd 5 [5; -5; 5; -5] /\ fwd53 true [5; -5; 5; -5] = [0; 0; -10; -10].
+Proof. split; [lia|]. split; [repeat constructor; lia|vm_compute; reflexivity]. Qed.
